@@ -556,44 +556,59 @@ def elementStmts (c : BCfg) (start : Head) (end0 : Option Elem)
            fillIndex := if isMacroUse then 1 else 0, defineMacro := get (METAL, lit "define-macro"),
            onError := onErrorParsed, translateEmpty := translateEmpty }
 
+/-- the innermost node: a macro use (with the slot fillers its children registered), or `InnerSpec.node` of the children -/
+def ElemStmts.innerNode (p : ElemStmts) (slots : List (Tok × Node)) (body : List Node) : Node :=
+  match p.kind with
+  | .macroUse macroTok ext =>
+    Node.define [.assign [{ str := lit "macroname", pos := 0 }] (.const (rsplitSlash macroTok.str)) true]
+      (.useExternal (.value macroTok) slots ext)
+  | .tal ip => ip.node (.seq body)
+
+/-- the element's node with its statement wrappers: what `metal:fill-slot` hands to the enclosing use and
+`metal:define-macro` registers as the macro's body -/
+def ElemStmts.slotNode (p : ElemStmts) (slots : List (Tok × Node)) (body : List Node) : Node :=
+  applyWrappers p.wrappers wrapOrder (p.innerNode slots body)
+
+/-- … and what stands in the parent's body: the in-place use of a defined macro, inside `i18n:name`, inside `tal:on-error` -/
+def ElemStmts.fullNode (p : ElemStmts) (oid : Nat) (slots : List (Tok × Node)) (body : List Node) : Node :=
+  let slot2 := match p.defineMacro with
+    | some cl => Node.useInternal (some cl.str)
+    | none => p.slotNode slots body
+  let slot3 := match p.name with | some cl => Node.name cl slot2 | none => slot2
+  match p.onError with
+  | none => slot3
+  | some (st, expr) => .onError oid (p.fallback st expr) slot3
+
 /-- what happens once the children are visited: the node of the element is assembled from its parsed statements `p`
-and the nodes of its children -/
+and the nodes of its children; the builder state records the slot filler / the macro -/
 def elementPost (p : ElemStmts) (body : List Node) : BM Node := do
       bModify (fun s => { s with switches := s.switches.drop 1, interpolation := s.interpolation.drop 1 })
       let sU ← bGet
-      let inner : Node := match p.kind with
-        | .macroUse macroTok ext =>
-          Node.define [.assign [{ str := lit "macroname", pos := 0 }] (.const (rsplitSlash macroTok.str)) true]
-            (.useExternal (.value macroTok) (sU.useMacro.headD []) ext)
-        | .tal ip => ip.node (.seq body)
+      let slots := sU.useMacro.headD []
       if p.useMacroNonEmpty then bModify (fun s => { s with useMacro := s.useMacro.drop 1 }) else pure ()
-      let slot0 := applyWrappers p.wrappers wrapOrder inner
+      let slot0 := p.slotNode slots body
       -- metal:fill-slot: the node goes to the slot list of the enclosing use-macro
-      let slot1 ← match p.fillSlot with
-        | some cl => do
+      match p.fillSlot with
+        | some cl =>
           let index := p.fillIndex
           bModify (fun s => { s with useMacro := (s.useMacro.take index) ++
             [ (s.useMacro.getD index []) ++ [(cl, slot0)] ] ++ s.useMacro.drop (index + 1) })
-          pure slot0
-        | none => pure slot0
+        | none => pure ()
       -- metal:define-macro
-      let slot2 ← match p.defineMacro with
-        | some cl => do
+      match p.defineMacro with
+        | some cl =>
           -- `self._macros[clause] = slot`: a dict keeps the position of a key that is assigned again
           bModify (fun s =>
             let ms : List (Str × Node) := if s.macros.any (fun m => m.1 == cl.str)
-              then s.macros.map (fun m => if m.1 == cl.str then (cl.str, slot1) else m)
-              else s.macros ++ [(cl.str, slot1)]
+              then s.macros.map (fun m => if m.1 == cl.str then (cl.str, slot0) else m)
+              else s.macros ++ [(cl.str, slot0)]
             { s with macros := ms })
-          pure (Node.useInternal (some cl.str))
-        | none => pure slot1
-      let slot3 := match p.name with | some cl => Node.name cl slot2 | none => slot2
+        | none => pure ()
       -- tal:on-error
-      match p.onError with
-      | none => pure slot3
-      | some (st, expr) => do
-        let oid ← freshId
-        pure (.onError oid (p.fallback st expr) slot3)
+      let oid ← (match p.onError with
+        | none => pure 0
+        | some _ => freshId)
+      pure (p.fullNode oid slots body)
 
 /-- the rest of `visit_element` up to the visit of the children; the result is the continuation that runs after it -/
 def elementBodyPre (c : BCfg) (start : Head) (end0 : Option Elem)
